@@ -10,6 +10,7 @@ import (
 	"sort"
 	"strconv"
 	"strings"
+	"sync"
 	"sync/atomic"
 	"time"
 
@@ -41,6 +42,10 @@ type BatcherCase struct {
 	Buckets int    `json:"buckets,omitempty"`
 	Msgs    []Msg  `json:"msgs"`
 	Pauses  []int  `json:"pauses,omitempty"` // indices before which the feeder waits for a tick
+	// StatsGate: the stats channel is small, and whenever an over-size row is fed it is FULL and nobody
+	// reads it (a stats consumer that is momentarily behind) until the batcher is seen waiting; the drop
+	// statistic of that row must still arrive (C15: "dropped with a statistic")
+	StatsGate bool `json:"stats_gate,omitempty"`
 }
 
 type Seen struct {
@@ -82,7 +87,11 @@ func runBatcherImpl(c BatcherCase) (evs []Ev, big, invalid int, terminated bool)
 	in := make(chan *marshaller.MarshalledMessage)
 	seenCh := make(chan []*progress.Seen)
 	writtenCh := make(chan *ordered_map.OrderedMap)
-	statsCh := make(chan stats.Stat, 4096)
+	statsCap := 4096
+	if c.StatsGate {
+		statsCap = 4
+	}
+	statsCh := make(chan stats.Stat, statsCap)
 	// Kinesis batches come from the REAL factory (kinesis.NewBatchFactory decides from the partition
 	// method whether records are keyed by their own LSN or by the batch key); the model is told the
 	// documented rule (own LSN iff method = none) through c.Kind
@@ -101,8 +110,55 @@ func runBatcherImpl(c BatcherCase) (evs []Ev, big, invalid int, terminated bool)
 	go func() { b.StartBatching(); close(done) }()
 	statsDone := make(chan struct{})
 	var dropped int64
+	// the reader can be paused (StatsGate); it reports when it has parked
+	var gateMu sync.Mutex
+	gateCond := sync.NewCond(&gateMu)
+	paused, parked := false, false
+	pauseReader := func() {
+		gateMu.Lock()
+		paused = true
+		gateMu.Unlock()
+		// the reader may be blocked in a receive on an empty channel: dummies make it come round and park;
+		// then the channel is topped up to its capacity
+		for {
+			gateMu.Lock()
+			p := parked
+			gateMu.Unlock()
+			if p {
+				break
+			}
+			select {
+			case statsCh <- stats.Stat{Component: "verif-dummy"}:
+			default:
+				time.Sleep(100 * time.Microsecond)
+			}
+		}
+		for full := false; !full; {
+			select {
+			case statsCh <- stats.Stat{Component: "verif-dummy"}:
+			default:
+				full = true
+			}
+		}
+	}
+	resumeReader := func() {
+		gateMu.Lock()
+		paused, parked = false, false
+		gateCond.Broadcast()
+		gateMu.Unlock()
+	}
 	go func() {
-		for s := range statsCh {
+		for {
+			gateMu.Lock()
+			for paused {
+				parked = true
+				gateCond.Wait()
+			}
+			gateMu.Unlock()
+			s, ok := <-statsCh
+			if !ok {
+				break
+			}
 			if s.Component == "batcher" && s.StatName == "dropped_too_big" {
 				big += int(s.Value)
 				atomic.AddInt64(&dropped, s.Value)
@@ -114,6 +170,7 @@ func runBatcherImpl(c BatcherCase) (evs []Ev, big, invalid int, terminated bool)
 		}
 		close(statsDone)
 	}()
+	defer resumeReader()
 	outs := b.GetOutputChans()
 	pause := map[int]bool{}
 	for _, p := range c.Pauses {
@@ -178,6 +235,7 @@ func runBatcherImpl(c BatcherCase) (evs []Ev, big, invalid int, terminated bool)
 			}
 		}
 	}
+	gatePending := false
 	for i := range c.Msgs {
 		if pause[i] {
 			drain(3 * tickMs * time.Millisecond)
@@ -187,6 +245,27 @@ func runBatcherImpl(c BatcherCase) (evs []Ev, big, invalid int, terminated bool)
 		}
 		m := c.Msgs[i]
 		rm := m.real()
+		if gatePending {
+			// an over-size row was fed with the stats channel full and unread: a batcher that emits its
+			// drop statistic with a blocking send is now waiting in that send and cannot take this message.
+			// Give it a moment; then the reader comes back either way.
+			r := step(rm, 60*time.Millisecond)
+			gatePending = false
+			resumeReader()
+			if r == "sent" {
+				mm := m
+				evs = append(evs, Ev{Kind: "feed", Msg: &mm})
+				continue
+			}
+			if r == "done" {
+				terminated = true
+				break
+			}
+		}
+		if c.StatsGate && c.Kind.Kinesis != "" && !m.marker() && m.JLen > awsMaxRecordBytes {
+			pauseReader()
+			gatePending = true
+		}
 		for {
 			r := step(rm, time.Second)
 			if r == "sent" {
@@ -202,6 +281,10 @@ func runBatcherImpl(c BatcherCase) (evs []Ev, big, invalid int, terminated bool)
 		if terminated {
 			break
 		}
+	}
+	if gatePending {
+		gatePending = false
+		resumeReader()
 	}
 	// A sentinel BEGIN ends the input.  The input channel is unbuffered and the batcher handles one
 	// message at a time with blocking sends, so once the sentinel has been accepted every output of every
@@ -276,6 +359,7 @@ func runBatcherImpl(c BatcherCase) (evs []Ev, big, invalid int, terminated bool)
 			break
 		}
 	}
+	resumeReader()
 	close(statsCh)
 	<-statsDone
 	return
@@ -467,6 +551,18 @@ func batcherMonitor(c BatcherCase, evs []Ev, big, invalid int) []core.Violation 
 			nonMarker++
 		}
 	}
+	// C15: a row above the per-record limit is dropped WITH a statistic (one dropped_too_big per such row)
+	if c.Kind.Kinesis != "" {
+		overs := 0
+		for _, m := range fedOrder {
+			if !m.marker() && m.JLen > awsMaxRecordBytes {
+				overs++
+			}
+		}
+		if big < overs {
+			add("C15", "over-size-row-dropped-without-a-statistic", fmt.Sprintf("%d rows above the 1 MiB record limit were fed, the batcher emitted %d dropped_too_big statistics", overs, big))
+		}
+	}
 	if len(dispatched)+big+invalid != nonMarker {
 		add("C04", "records-lost-or-invented", fmt.Sprintf("%d changes fed, %d dispatched + %d dropped too big + %d dropped invalid", nonMarker, len(dispatched), big, invalid))
 	}
@@ -547,6 +643,7 @@ func genBatcherCase(rng *rand.Rand) BatcherCase {
 	bigShare := 0
 	if c.Kind.Kinesis != "" && rng.Intn(3) == 0 {
 		bigShare = 1 + rng.Intn(3)
+		c.StatsGate = rng.Intn(2) == 0
 	}
 	// PostgreSQL delivers transactions in commit order; the BEGIN and change positions of concurrent
 	// transactions interleave, so in half of the cases a transaction's positions start below the
